@@ -111,6 +111,8 @@ pub struct Replica {
     /// false between a commit made while a foreign block was held back and the next refresh: the
     /// commit's own pack may have completed that block, which the replica only learns by refreshing
     pub fresh: bool,
+    /// export kept aside by StageSave
+    pub saved_stage: Option<Option<Value>>,
 }
 
 pub struct Msg {
@@ -204,6 +206,7 @@ impl World {
                 commits: 0,
                 failed_commit_pending: false,
                 fresh: true,
+                saved_stage: None,
             });
         }
         Ok(w)
@@ -325,6 +328,8 @@ impl World {
             Op::Unstage { r } => self.op_unstage(*r),
             Op::StageRoundTrip { r } => self.op_stage_roundtrip(*r),
             Op::Snapshot { r } => self.op_snapshot(*r),
+            Op::StageSave { r, keep } => self.op_stage_save(*r, *keep),
+            Op::StageRestore { r } => self.op_stage_restore(*r),
             Op::ObjOp { r, kind, id_sel, fields } => self.op_objop(*r, *kind, *id_sel, fields),
             Op::Send { from, to, sel, delay, dup, drop } => self.op_send(*from, *to, *sel, *delay, *dup, *drop),
             Op::SendAll { from, to } => self.op_sendall(*from, *to),
@@ -387,13 +392,26 @@ impl World {
             // not the same version (e.g. items still in flight elsewhere): nothing to say
             return Ok(());
         }
+        // a held-back foreign block could become complete through the very packs the two commits write
+        // (same objects) and bring a concurrent branch in: then a conflict is not due to the same edit
+        let held = [a, b].iter().any(|x| api::block_status(self.live(*x)).values().any(|s| s != "applied"));
+        if held {
+            self.bump("probe.same_edit_skipped_held_back");
+            return Ok(());
+        }
         let conf_before: BTreeSet<String> = da["in_conflict"].as_array().unwrap().iter().map(|x| x.as_str().unwrap().to_string()).collect();
         if !conf_before.is_empty() {
             // an array in conflict makes the submitted edit scripts depend on the merge; keep to the clean case
             return Ok(());
         }
         self.op_update(a, doc, false)?;
-        self.op_update(b, doc, false)?;
+        // b's user has the same document, but it went through JSON text on the way (other spelling of
+        // the same numbers: exponents, trailing zeros) — the same content nevertheless
+        let doc_b = docgen::respelled(doc);
+        if !docgen::same_json_value(&doc_b, doc) {
+            return Err(Stop::Inconclusive("harness: re-spelled document denotes another value".into()));
+        }
+        self.op_update(b, &doc_b, false)?;
         let (sa, sb) = (self.digest_of(a)?, self.digest_of(b)?);
         if self.is(&["C19"]) && sa["winners"] != sb["winners"] {
             viol!(self, "same-edit-same-revision", "same-edit-different-revisions", "two replicas at the same version submitted the same document but obtained different revisions: {}", diff_digest(&sa, &sb));
@@ -728,6 +746,14 @@ impl World {
                     }
                 }
                 let after = self.digest_of(r)?;
+                if self.is(&["C04", "C15"]) {
+                    for (k, data, _) in writes.iter().filter(|w| w.0.ends_with(".delta")) {
+                        let v: Value = serde_json::from_slice(data).unwrap_or(Value::Null);
+                        if v.get("c").and_then(|c| c.as_array()).map_or(true, |a| a.is_empty()) {
+                            viol!(self, "empty-commit-writes-nothing", "commit-wrote-block-without-changes", "commit reported {:?} and wrote {} although it records no change: {}", ids, k, trunc(&v));
+                        }
+                    }
+                }
                 if self.is(&["C13"]) {
                     let nd: Vec<&String> = writes.iter().filter(|w| w.0.ends_with(".delta")).map(|w| w.0).collect();
                     let np = writes.iter().filter(|w| w.0.ends_with(".pack")).count();
@@ -1132,7 +1158,7 @@ impl World {
         }
         let n = self.replicas[r].checkpoints.len();
         // u32::MAX selects the newest checkpoint
-        let cp = self.replicas[r].checkpoints[if sel == u32::MAX { n - 1 } else { sel as usize % n }].clone();
+        let cp = self.replicas[r].checkpoints[if sel == u32::MAX { n - 1 } else if sel == u32::MAX - 1 { n.saturating_sub(2) } else { sel as usize % n }].clone();
         if cp.heads.is_empty() {
             return Ok(());
         }
@@ -1404,6 +1430,58 @@ impl World {
         Ok(())
     }
 
+    /// Export the staged changes, keep the export, discard the stage.
+    fn op_stage_save(&mut self, r: usize, keep: bool) -> Res {
+        let exp = { let m = self.live(r); self.call("stage", || m.stage())? };
+        let exp = match exp {
+            Ok(e) => e,
+            Err(_) => return Ok(()),
+        };
+        self.replicas[r].saved_stage = Some(exp);
+        self.bump("probe.stage_saved");
+        if keep {
+            return Ok(());
+        }
+        self.op_unstage(r)
+    }
+
+    /// Replay the export kept aside, possibly onto a state that has moved on since (refresh, other
+    /// edits). No claim is made about the resulting state; what is staged can again be discarded
+    /// (the next Unstage must restore the clean state) or committed.
+    fn op_stage_restore(&mut self, r: usize) -> Res {
+        if self.replicas[r].time_travel {
+            return Ok(());
+        }
+        let exp = match self.replicas[r].saved_stage.clone() {
+            Some(e) => e,
+            None => return Ok(()),
+        };
+        let m = self.live(r);
+        let was_staging = self.call("has_staging", || m.has_staging())?;
+        let before = if was_staging { None } else { Some(self.digest_of(r)?) };
+        let _ = self.call("replay_stage", || m.replay_stage(&exp).map_err(|e| e.to_string()))?;
+        self.replicas[r].model_doc = None;
+        self.bump("probe.stage_restored");
+        if self.is(&["C04", "C15"]) {
+            // a replay that adds no change record (everything in the export is recorded already, e.g. it
+            // was committed in the meantime) changes nothing: nothing is staged, a commit reports nothing
+            let m = self.live(r);
+            let (flag, exp2) = self.call("stage", || (m.has_staging(), m.stage().ok().flatten()))?;
+            let records = exp2.as_ref().and_then(|e| e.get("c")).and_then(|c| c.as_array()).map_or(0, |a| a.len());
+            if flag && records == 0 {
+                viol!(self, "staged-flag-consistent", "staged-flag-without-changes", "after replay_stage the replica reports staged changes but stage() lists no change record: {}", trunc(&json!(exp2)));
+            }
+            if let (false, Some(b)) = (flag, &before) {
+                let after = self.digest_of(r)?;
+                if &after != b {
+                    viol!(self, "staged-flag-consistent", "replay-without-records-changed-state", "replay_stage added no change record but changed the state: {}", diff_digest(b, &after));
+                }
+                self.bump("probe.stage_restored_noop");
+            }
+        }
+        Ok(())
+    }
+
     fn op_snapshot(&mut self, r: usize) -> Res {
         if self.replicas[r].time_travel {
             return Ok(());
@@ -1428,7 +1506,7 @@ impl World {
     }
 
     fn op_objop(&mut self, r: usize, kind: u8, id_sel: u32, fields: &Value) -> Res {
-        if self.replicas[r].time_travel {
+        if self.replicas[r].time_travel && !self.is(&["C13", "C08"]) {
             return Ok(());
         }
         let m = self.live(r);
